@@ -87,6 +87,10 @@ func attacker(rng *rand.Rand, g *world.Gen, h uint32, bs *world.BlockSpec, bi in
 			}
 		case 5:
 			bs.RawFirst = rng.Intn(2) == 0
+			// a well-signed batch whose input names no asset type at all
+			amt := uint64(rng.Intn(3))
+			bs.Tx = append(bs.Tx, world.TxSpec{From: 10 + rng.Intn(g.P.Users), Minute: 10, Nonce: 7400000 + rng.Intn(1000000),
+				Parts: []world.TxPart{{Asset: world.AssetOmitted, Amt: amt, Outs: []world.Out{{To: 9, Amt: amt}}}}})
 		}
 	}
 }
